@@ -100,11 +100,40 @@ func runStream(T uint32, classes []string, res *TaskResult) {
 	if len(res.Samples) < 2 {
 		res.Samples = append(res.Samples, what)
 	}
-	// usable like an incrementally built array: one more append and a removal
 	if !c17Check(w, what, res) {
 		return
 	}
-	_ = c
+	// usable like an incrementally built array: the slabs the constructor produced must not share element
+	// storage (a later insert that grows one slab's element list in place must not reach into its right
+	// sibling).  The oracles above committed and reopened the state (slabs decoded afresh), so this runs on a
+	// SECOND, untouched build of the same stream: inserts near the end, in the middle and at the front, content
+	// compared after each, then the full oracle set again
+	n := len(c.Elems)
+	if n < 2 || n > 200 {
+		return
+	}
+	w2 := NewWorld(T)
+	c2, err := buildBatchArray(w2, classes)
+	if err != nil {
+		res.Viols = append(res.Viols, what+" (second build): "+err.Error())
+		return
+	}
+	done := map[int]bool{}
+	for _, p := range []int{n - 1, n - 2, n - 3, n - 4, n / 2, 0} {
+		if p < 0 || done[p] {
+			continue
+		}
+		done[p] = true
+		if err := w2.Apply(Op{K: "insert", C: c2.Serial, I: uint64(p), V: "t"}); err != nil {
+			res.Viols = append(res.Viols, what+fmt.Sprintf(": insert at %d after the bulk build: ", p)+err.Error())
+			return
+		}
+		if err := w2.DeepCheck(); err != nil {
+			res.Viols = append(res.Viols, what+fmt.Sprintf(": after an insert at %d following the bulk build: ", p)+err.Error())
+			return
+		}
+	}
+	c17Check(w2, what+" (after inserts)", res)
 }
 
 func c17Task(raw json.RawMessage) TaskResult {
